@@ -331,6 +331,28 @@ func (C04) Execute(sc *core.Scenario, keepLog bool) *core.Result {
 			case "rename":
 				k := 1 + abs(a.Arg(0))%(len(m.Boxes)-1)
 				name := m.Boxes[k]
+				if abs(a.Arg(1))%3 == 1 && !s.C.Dead {
+					// the name comes back into existence through RENAME INBOX (which moves
+					// INBOX's messages into a NEW mailbox of that name and leaves INBOX empty)
+					r1 := s.Cmd("DELETE %s", Quote(name))
+					if !r1.OK() {
+						m.reviveSessions()
+						break
+					}
+					for j := range m.Sess {
+						if m.Sel[j] == k {
+							m.Sel[j] = -1
+							m.Sess[j].M.Unselect()
+						}
+					}
+					r2 := s.Cmd("RENAME INBOX %s", Quote(name))
+					e.Tr.Event("rename-inbox", name, r1.Status, r2.Status)
+					e.St.Probes["recreated_by_rename_inbox"]++
+					m.reviveSessions()
+					l.observe(name, "after DELETE + RENAME INBOX to the name")
+					l.observe("INBOX", "after RENAME INBOX")
+					break
+				}
 				tmp := fmt.Sprintf("%s-moved%d", name, i)
 				r1 := s.Cmd("RENAME %s %s", Quote(name), Quote(tmp))
 				r2 := s.Cmd("CREATE %s", Quote(name))
